@@ -308,6 +308,21 @@ Theorem c14_bounded_http_limit : forall limit chunk svc h etext frame,
 Proof. exact http_frame_b_spec. Qed.
 Print Assumptions c14_bounded_http_limit.
 
+(** ** the two models of this code path agree: C12's model by sizes (Model/SizeLimit.v [server_bounded], what
+    FNatsServer publishes for a reply) computes, on the sizes of the writes of the byte model, exactly the
+    length and kind of what the byte model leaves — for every limit, headers, result, error text, cutting. *)
+From FV Require Proofs.ProcessorBoundedSizeLimit.
+Theorem c14_bounded_agrees_with_c12 : forall l chunk rh name rb etext,
+  chunk_ok chunk ->
+  FV.Model.SizeLimit.server_bounded l (ProcessorBoundedSizeLimit.size_view chunk rh name rb etext) =
+  match snd (spec_plan (Some l) true etext (PReply rh name rb true)) with
+  | [] => None
+  | d => Some (if fits (Some l) (zlen (msg_bytes rh name mt_reply rb))
+               then FV.Model.SizeLimit.FReply else FV.Model.SizeLimit.FTooLarge, 4 + zlen d)
+  end.
+Proof. exact ProcessorBoundedSizeLimit.server_bounded_agrees. Qed.
+Print Assumptions c14_bounded_agrees_with_c12.
+
 (** ** non-vacuity: a handler that adds a response header of 40 bytes and returns a 64-byte result.
     The reply frame is 4 + 163 bytes; the RESPONSE_TOO_LARGE exception with all headers 4 + 118 (error text of
     5 bytes), with the op id only 4 + 56. *)
